@@ -214,7 +214,10 @@ impl Service {
         }
         let new_instance = Arc::new(instance);
         // 非来自集群的更新才维护实例心跳检测
-        if new_instance.is_enable_timeout() && !from_sync {
+        // a copy pushed by a peer that CREATES an instance this node is responsible for (the key is in its range, no
+        // local instance: e.g. a stale copy arriving after the local expiry) must be supervised like any other
+        let created_by_sync = from_sync && matches!(rtype, UpdateInstanceType::New);
+        if new_instance.is_enable_timeout() && (!from_sync || created_by_sync) {
             self.healthy_timeout_set.add(
                 new_instance.last_modified_millis as u64,
                 new_instance.get_short_key(),
